@@ -48,6 +48,14 @@ theorem defect_header (hdr : Bytes) (zero : O) (set : O → Bytes → Bytes → 
   rw [← List.isPrefixOf_iff_prefix, h] at this
   cases this
 
+/-- header defect in the Spec's terms: the part of the string before its first `/` is not the header
+    (this includes the header followed by junk) -/
+theorem defect_header_headOf (hdr : Bytes) (hh : SLASH ∉ hdr) (zero : O) (set : O → Bytes → Bytes → O × Go.Err)
+    (s : Bytes) (h : Spec.headOf s ≠ hdr) : Model.parse3 (hdr ++ [SLASH]) zero set s = .err Model.eHeader := by
+  apply parse3_no_prefix
+  intro hp
+  exact h ((Spec.headOf_eq_iff s hdr hh).mpr (Or.inr hp))
+
 /-- illegal value in one element -/
 theorem defect_illegal (K : Contract O Spec.V3.metrics) (hdr : Bytes) (l1 l2 : List Pair) (a x v : Bytes)
     (hw : IsWit (l1 ++ (a, x) :: l2)) (hv : legal Spec.V3.metrics a v = false) (hs : SLASH ∉ v) :
